@@ -276,7 +276,8 @@ def check(run: Run) -> None:
                         "advanced iff it fired now, else re-armed at its next time iff scheduled"):
         fa = R.fn(run, NODE, "evaluate_impl")
         roles = node_eval_roles()
-        R.k1(run, "C02.g", fa, roles, node_eval_spec, role_calls=NODE_EVAL_CALLS, may_throw_calls=("EVAL",),
+        spec_g, calls_g, _ = node_eval_projection({"eval", "rearm"})
+        R.k1(run, "C02.g", fa, roles, spec_g, role_calls=calls_g, may_throw_calls=("EVAL",),
              what="node evaluate gate + scheduler re-arm")
     with run.obligation("C02.g2", "K1", "NodeScheduler::advance pops iff first<=NOW and re-arms iff events remain"):
         fa = R.fn(run, SCHED, "NodeScheduler::advance")
@@ -369,6 +370,33 @@ def node_eval_spec(v):
         elif v.b("IS_SCHED"):
             calls.append(("RESCHED", (ANY, "SNEXT")))
     return Expect(ret=True, calls=calls)
+
+
+def node_eval_projection(aspects):
+    """The node-evaluate decision table restricted to the part a property speaks about, so that a defect in ANOTHER part of the same
+    function is not reported under this property: aspects is a subset of {'eval', 'error', 'rearm'}.
+    Returns (spec, role_calls, feasible)."""
+    keep = set()
+    if "eval" in aspects:
+        keep.add("EVAL")
+    if "error" in aspects:
+        keep |= {"EVAL", "WERR"}
+    if "rearm" in aspects:
+        keep |= {"ADV", "RESCHED"}
+    calls = {k: v for k, v in NODE_EVAL_CALLS.items() if k in keep}
+
+    def spec(v):
+        full = node_eval_spec(v)
+        if full.throws and "error" not in aspects:
+            return Expect(throws="may", calls=None)
+        if full.calls is None:
+            return full
+        return Expect(ret=full.ret, throws=full.throws, calls=[c for c in full.calls if c[0] in keep])
+    feasible = None
+    if aspects == {"error"} or aspects == {"error", "rearm"}:
+        # only the rows in which the user callback throws are about error capture
+        feasible = lambda v: (not v.b("STARTED")) or v.b("throws:EVAL")
+    return spec, calls, feasible
 
 
 VARIANTS = [
